@@ -125,8 +125,8 @@ func init() {
 		ruleC12Loops, ruleC12Docs, ruleCloneContract("C12.copy"), ruleC13Vars, ruleSmallContracts("C12.helper", "pophelpers"), ruleListsRebuilt("C12.rebuilt"))
 
 	mk("C13", "Interpolation and $env substitute exactly the referenced values",
-		"path-effect summaries of process2String, the interpolation callback (captured error cell), getWithVar, GetVar, envVars; census of the interpolation pattern literal",
-		"C13 decides the interpolation trigger and pattern, that a failed lookup or nested evaluation sets the captured error which is returned on every path (never an empty substitution), the document-then-variable fallback, whole-string $env:/$repeat substitution, and that environment values are boxed as strings.",
+		"path-effect summaries of process2String, process2StringInterp (the text handed to the replacement pass), the interpolation callback (captured error cell), getWithVar, GetVar, envVars; census of the interpolation pattern literal",
+		"C13 decides the interpolation trigger and pattern, that the text scanned for references is the string minus exactly its $" opener and closing quote, that a failed lookup or nested evaluation stores its own error in the captured error which is returned on every path (never an empty substitution), the document-then-variable fallback, whole-string $env:/$repeat substitution, and that environment values are boxed as strings.",
 		"DESIGN.md §5 C13",
 		[]string{"%v formatting of non-string values", "literal } and : inside templates"},
 		nil,
@@ -141,7 +141,7 @@ func init() {
 		ruleC14, ruleC14Decode, ruleC07Encode("C14.validate"), ruleC04Normalised("C14.inverse"), ruleC04Float, ruleYamlScalars("C14.scalars"), ruleDroppedErrors, ruleSmallContracts("C14.helper", "pophelpers"), ruleTypedNil("C14.typednil"))
 
 	mk("C15", "bkld round trip: base + bkld(base, target) evaluates to target",
-		"path-effect summaries of diff/diffDoc against the diff table; contract of a hand-written entry comparison (equal sizes); composition check diff-emits-wholesale x merge-accepts over kind pairs; nil-diff-implies-equal-sequence check; vocabulary agreement of emitted directives with the evaluator",
+		"path-effect summaries of diff/diffDoc against the diff table; contract of a hand-written entry comparison (a structural walk with equal sizes, never derived from diff itself); composition check diff-emits-wholesale x merge-accepts over kind pairs; nil-diff-implies-equal-sequence check; vocabulary agreement of emitted directives with the evaluator",
 		"C15 decides the diff decision table, that every directive bkld emits is one merge recognises, that main diffs (target, base) and adds the document-level $match: {}, that wherever diff emits the target wholesale for a kind change merge accepts it, and that an empty list diff implies equal sequences.",
 		"DESIGN.md §5 C15",
 		[]string{"over-deletion by partial $delete patterns", "multiset/ordering semantics of list diffs beyond the nil case", "the round trip in general"},
